@@ -1,7 +1,7 @@
 #!/bin/bash
 # runs every check of one tier and prints one summary line each
 tier="${1:-quick}"; shift || true
-cd /verif
+cd "$(dirname "$0")/.."
 ids="${*:-C01 C02 C03 C04 C05 C06 C07 C08 C09 C10 C11 C12 C13 C14 C15 C16 C17 C18 C19 C20}"
 for c in $ids; do
   s=$(date +%s)
